@@ -186,7 +186,7 @@ def run_unit(path, rlimit=None, seed=None, extra_args=(), quarantine=()):
     missing = [n for n in u.mustfail if n not in mf_ok]
     # lost anchors (an annotated loop / proof position that is no longer there):
     #  - the function verifies without the annotation -> nothing is undecided
-    #  - it fails, and only loop annotations were lost, and no loop is left in it -> straight-line code needs no invariant: the failure stands
+    #  - it fails, a loop annotation was lost, and no loop is left in it at all -> straight-line code needs no invariant: the failure stands
     #  - otherwise the failure may be the missing annotation's fault -> undecided, never an alarm
     lost = [x for x in u.soft_undecided if x.get('anchor')]
     if lost:
@@ -196,7 +196,8 @@ def run_unit(path, rlimit=None, seed=None, extra_args=(), quarantine=()):
             fails = [fl for fl in real if fl['fn'] == fnname]
             if not fails:
                 res.setdefault('anchors_not_needed', []).extend(x['msg'] for x in mine)
-            elif all(x['anchor'] == 'loop' and x['loops_left'] == 0 for x in mine):
+            elif all(x['loops_left'] == 0 for x in mine) and any(x['anchor'] == 'loop' for x in mine):
+                # the annotations were written for a loop that is gone altogether: what is left is straight-line code
                 res.setdefault('anchors_not_needed', []).extend(x['msg'] for x in mine)
             else:
                 real = [fl for fl in real if fl['fn'] != fnname]
